@@ -205,6 +205,9 @@ func FmtRandom(rng *rand.Rand, id int) *FmtCase {
 			}
 			pat += on
 			c.Outs[on] = pat
+		} else if i == 1 && rng.Intn(2) == 0 {
+			// the second output is named after the first one ("{o:out}" in an output-path pattern), plain or modified
+			c.Outs[on] = []string{"{o:out}.idx", "{o:out|basename}.idx", "idx/{o:out|basename|%.o0}.bai", "{o:out|dirname}/side.{o:out|basename}"}[rng.Intn(4)]
 		}
 		omods := ""
 		if typ == "o" && rng.Intn(5) == 0 {
@@ -236,7 +239,19 @@ func FmtExpected(c *FmtCase) (cmd string, outs map[string]string, ok bool) {
 			continue
 		}
 		if pat, has := c.Outs[name]; has {
-			p, err := ref.FormatPath(pat, tv, nil)
+			// "{o:x}" in a path pattern stands for the path of out-port x
+			var pathOf func(port string) (string, error)
+			pathOf = func(port string) (string, error) {
+				opi, ok := ports[port]
+				if !ok || port == name {
+					return "", &ref.FormatErr{Msg: "no out-port " + port}
+				}
+				if opat, has := c.Outs[port]; has {
+					return ref.FormatPath(opat, tv, pathOf)
+				}
+				return ref.DefaultName(tv, port, opi.Ext), nil
+			}
+			p, err := ref.FormatPath(pat, tv, pathOf)
 			if err != nil {
 				return "", nil, false
 			}
